@@ -341,7 +341,16 @@ pub fn run_case(case: &Case, stats: &mut Stats, cnt: &mut C04Counters) -> CaseRe
             let r = catch_unwind(AssertUnwindSafe(|| exec(&mut w, op, &mut env)));
             simalloc::track(false);
             if r.is_err() {
-                let _ = take_panic();
+                let p = take_panic();
+                if op.name.starts_with("rbig.") {
+                    // reducing a fraction with a non-zero denominator is a defined operation
+                    if let Some(p) = p {
+                        if p.origin() == "dashu" || p.origin() == "rust" {
+                            res.violation = Some(viol("ratio.unexpected_panic", k, format!("{}: defined operation panicked: {} @{}:{}", op.name, p.msg(), p.file(), p.line)));
+                            break 'steps;
+                        }
+                    }
+                }
             }
             stats.steps += 1;
             if let Some((class, detail)) = untracked(|| env.violation.take()) {
